@@ -55,6 +55,8 @@ def run(rep):
     ellipse(rep, byname)
     widened_products(rep, fns)
     rep.floor("obligations:K8", 4)
+    octant_joint(rep, byname)
+    rep.floor("obligations:K9", 2)
     rep.floor("obligations:K1", 2)
     rep.floor("obligations:K2", 2)
     rep.floor("obligations:K3", 2)
@@ -657,3 +659,141 @@ def _is_const(e):
             return True
         e = e["e"]
     return isinstance(e, dict) and ("const" in e or e.get("k") in ("Int", "IntegerLiteral"))
+
+
+def octant_joint(rep, byname):
+    """K9 (midpoint circle): the first octant is walked for x = 0 .. N-1 with N = point_count()/8 and mirrored seven times. The curve is closed across the 45 degree
+    diagonal only if the last point (x, y) has y - x <= 1, otherwise (x, y) and its mirror image (y, x) are two pixels apart.
+    Step 1 (shape): y = r; emit(0, y); for x = 1 .. N-1: m = x^2 + y^2 - y - r^2; if (m > 0) --y; emit(x, y).   m > 0  <=>  x^2 + (y - 1/2)^2 > r^2 + 1/4.
+    Step 2 (invariant, by induction over x while y >= x + 1 held before every decrement): after column x, x^2 + (y - 1/2)^2 <= r^2 + 1/4 -- a decrement restores it
+    because x^2 + (y - 3/2)^2 = [(x-1)^2 + (y - 1/2)^2] + 2(x - y) + 1 <= r^2 + 1/4 when y >= x + 1; and y never drops below the largest such value, since it is
+    decremented only when the midpoint is outside. Hence y(x) = max{ y <= r : 4x^2 + (2y-1)^2 <= 4r^2 + 1 } as long as y(x) >= x + 1, and y - x only decreases.
+    Step 3: y(x) <= x + 1 follows from r^2 < 2x^2 + 3x + 2. With x = ROUND(c r) + k - 1, c = cos(pi/4), ROUND to nearest: x >= c r - 1/2 + (k-1); truncation: x > c r - 1 + (k-1).
+    Writing x >= c r - d the right-hand side is at least (2c^2 - 1) r^2 + c (3 - 4d) r + (2d^2 - 3d + 2) = c (3 - 4d) r + (2d^2 - 3d + 2) for c r >= d: positive for every r when d <= 3/4.
+    Radii with c r < d are evaluated on the closed form. If the sufficient condition fails the closed form is searched for an integer radius with y(x) - x >= 2."""
+    import math
+    rep.rule("K9 midpoint circle: with the loop shape `m = x*x + y*y - y - r*r; if (m > 0) --y` and N = ROUND(r*cos(pi/4)) + k columns per octant, the last point (x, y) "
+             "of the octant satisfies y - x <= 1 for every radius (the octants meet at the diagonal): proved from the loop invariant x^2 + (y-1/2)^2 <= r^2 + 1/4 when the "
+             "column count is a nearest-integer rounding (d = 1/2 - (k-1) <= 3/4); refuted only with a radius for which the closed form y(x) leaves a gap")
+    f0 = (byname.get("midpoint_circle_rasterizer::operator()") or [None])[0]
+    pc = (byname.get("midpoint_circle_rasterizer::point_count") or [None])[0]
+    if f0 is None or pc is None:
+        rep.fail_analysis("midpoint_circle_rasterizer not instantiated")
+        return
+    from .ir.poly import Poly
+    g = R.canonize(f0)
+    # ---- step 1: the shape
+    rep.count("obligations:K9")
+    key = "K9:midpoint_circle_rasterizer::operator():decision variable"
+    loops = [lp for lp, _ in R.find(g["body"], lambda x: x.get("k") == "For")]
+    shape = None
+    why = []
+    if len(loops) != 1:
+        why.append("%d loops" % len(loops))
+    else:
+        lp = loops[0]
+        init = R.strip(lp["init"])
+        xv = init["decls"][0]["name"] if init.get("k") == "Decl" else None
+        x0 = R.key(init["decls"][0]["init"]) if xv else None
+        cond = R.key(lp["cond"])
+        mcond = re.fullmatch(r"\(%s < \((?:this\.)?point_count\(\) / 8\)\)" % re.escape(xv or "?"), cond)
+        body = lp["body"].get("c") or []
+        ifs = [st for st in body if st.get("k") == "If"]
+        yv = mdef = None
+        if len(ifs) == 1 and ifs[0].get("else") is None:
+            mm = re.fullmatch(r"\((.+) > 0\)", R.key(ifs[0]["cond"]))
+            decs = [R.key(x) for x, _ in R.find(ifs[0]["then"], lambda x: x.get("k") == "Unary")]
+            if mm and len(decs) == 1 and re.fullmatch(r"\(--(%\d+)\)|\((%\d+)--\)", decs[0]):
+                yv = re.sub(r"[()\-]", "", decs[0])
+                mname = mm.group(1)
+                for dn, _ in R.find(lp["body"], lambda x: x.get("k") == "Decl"):
+                    for dd in dn["decls"]:
+                        if dd.get("name") == mname and dd.get("init") is not None:
+                            mdef = dd["init"]
+                if mdef is None and "*" in mname:
+                    mdef = ifs[0]["cond"]["l"] if ifs[0]["cond"].get("k") == "Binary" else None
+        if not (xv and x0 == "1" and mcond and "(++%s)" % xv in R.key(lp["inc"])):
+            why.append("loop is not `for (x = 1; x < point_count()/8; ++x)`: init %s, cond %s" % (x0, cond))
+        if yv is None or mdef is None:
+            why.append("no `if (m > 0) --y` with a defined m")
+        else:
+            names = {xv: "X", yv: "Y", "radius": "Rr", "this.radius": "Rr"}
+            pm = R.poly_of(mdef, rename=lambda nm: names.get(nm, nm))
+            X, Y, Rr = Poly.atom("X"), Poly.atom("Y"), Poly.atom("Rr")
+            want = X * X + Y * Y - Y - Rr * Rr
+            if pm is None or pm != want:
+                why.append("decision variable %s is not x^2 + y^2 - y - r^2" % (R.key(mdef)[:100],))
+            yinit = [R.key(dd["init"]) for dn, _ in R.find(g["body"], lambda x: x.get("k") == "Decl") for dd in dn["decls"] if dd.get("name") == yv and dd.get("init") is not None]
+            if yinit != ["radius"] and yinit != ["this.radius"]:
+                why.append("y starts at %s, not at the radius" % yinit)
+            emits = [R.key(c["args"][-1]) for c, _ in R.find(g["body"], lambda x: x.get("k") == "Call" and x.get("op") == "()" and re.fullmatch(r"%\d+", R.key(x["args"][0]) or ""))]
+            if emits != ["point_t{0,%s}" % yv, "point_t{%s,%s}" % (xv, yv)]:
+                why.append("emitted points %s" % emits)
+            # the emission of column x comes after the decision
+            order = [st.get("k") for st in body]
+            if not why and not (order.index("If") < max(i for i, st in enumerate(body) if st.get("k") in ("Call", "ExprStmt") or R.find(st, lambda x: x.get("k") == "Call" and x.get("op") == "()"))):
+                why.append("the point of a column is emitted before its decision")
+        if not why:
+            shape = True
+    if shape:
+        rep.ok("K9-octant-joint", key, "m = x^2 + y^2 - y - r^2; if (m > 0) --y; emit(x, y), y from r, x from 1 to point_count()/8 - 1")
+    else:
+        rep.incon("K9-octant-joint", key, {"unrecognised": why})
+        return
+    # ---- steps 2, 3: the column count
+    rep.count("obligations:K9")
+    key = "K9:midpoint_circle_rasterizer::point_count:octant joint"
+    rets = [x for x, _ in R.find(pc["body"], lambda x: x.get("k") == "Return")]
+    k = R.key(rets[0]["e"]) if rets else ""
+    core = r"\((?:this\.)?radius \* cos\(\(pi / 4\)\)\)"
+    mode = kk = None
+    for pat, md in ((r"\(8 \* \((?:l?l?round|nearbyint|rint)\(%s\) \+ (\d+)\)\)" % core, "nearest"),
+                    (r"\(8 \* \(floor\(\(%s \+ 0\.5\)\) \+ (\d+)\)\)" % core, "nearest"),
+                    (r"\(8 \* \((?:floor|trunc)\(%s\) \+ (\d+)\)\)" % core, "down"),
+                    (r"\(8 \* \(%s \+ (\d+)\)\)" % core, "down"),
+                    (r"\(8 \* \(ceil\(%s\) \+ (\d+)\)\)" % core, "up")):
+        m = re.fullmatch(pat, k)
+        if m:
+            mode, kk = md, int(m.group(1))
+            break
+    if mode is None:
+        rep.incon("K9-octant-joint", key, {"point_count": k[:200], "why": "not 8 * (ROUND(radius * cos(pi/4)) + k)"})
+        return
+    d = {"nearest": 0.5, "down": 1.0, "up": 0.0}[mode] - (kk - 1)
+    c = math.sqrt(0.5)
+
+    def isqrt_cf(x, r):
+        # closed form of step 2: largest y <= r with 4x^2 + (2y-1)^2 <= 4r^2 + 1
+        lim = 4 * r * r + 1 - 4 * x * x
+        if lim < 1:
+            return None
+        t = math.isqrt(lim)
+        return min(r, (t + 1) // 2)
+
+    def xlast(r):
+        v = r * c
+        base = {"nearest": math.floor(v + 0.5), "down": math.floor(v), "up": math.ceil(v)}[mode]
+        return base + kk - 1
+    proved = (3 - 4 * d) >= 0 and (2 * d * d - 3 * d + 2) > 0
+    small = range(0, int(math.ceil(max(d, 0) / c)) + 2)
+    bound = 3000 if rep.tier == "thorough" else 400
+    rng = small if proved else range(0, bound + 1)
+    witness = None
+    for r in rng:
+        x = xlast(r)
+        if x < 0:
+            continue
+        y = isqrt_cf(x, r)
+        if y is not None and y - x >= 2:
+            witness = (r, x, y)
+            break
+    det = {"columns per octant": "ROUND_%s(r*cos(pi/4)) + %d" % (mode, kk), "d": d, "sufficient condition c(3-4d) >= 0 and 2d^2-3d+2 > 0": proved}
+    if witness:
+        r, x, y = witness
+        det["witness"] = "radius %d: the octant ends at (%d,%d), its mirror image is (%d,%d): the pixel on the diagonal is missing, the circle is open" % (r, x, y, y, x)
+        rep.violation("K9-octant-joint", key, R.fn_where(pc), det)
+    elif proved:
+        det["small radii evaluated"] = list(small)
+        rep.ok("K9-octant-joint", key, det)
+    else:
+        rep.incon("K9-octant-joint", key, dict(det, why="sufficient condition fails and no witness up to radius %d" % bound))
